@@ -27,8 +27,9 @@ RULE = ('cases = a main .lua file plus a graph of 1-6 packages (chains, diamonds
         " A quarter of the default-load-path graphs reach one file under two names (x and x.lua), each with its own use_game_loop choice (two packages, per the README); some graphs use a relative load path containing '..' (?.lua;../libs/?.lua)."
         ' A third of the graphs are first built while the file of one required package is missing (the build must be rejected and write nothing), then the file is put back and the build under test runs in the same process.'
         ' Some graphs have a package named like a directory that holds other packages (x.lua next to x/).'
-        ' A third of the stripped packages call require() on a non-existing file inside a game-loop function (stripped with the function); error cases include the paren-less forms require "x", require [[x]], require{"x"}.')
-ASSUMPTIONS = ['only the documented parenthesised call form require("name"[, {use_game_loop=true}]) is generated',
+        ' A third of the stripped packages call require() on a non-existing file inside a game-loop function (stripped with the function); error cases include require{"x"}.'
+        ' Requires without options are also spelled require "x" / require [[x]]; package names include a backslash and a quote (a\\b.lua, say"hi".lua); look-alike functions include members of tables named like game-loop functions (function _draw.helper(), function _init:m()), which stay.')
+ASSUMPTIONS = ['require "name" / require [[name]] (Lua\'s call-with-a-string-literal spelling) is the same call as require("name") and is generated for requires without options; require{...} must fail',
                'a package is required with the same option everywhere (picotool documents first-encounter-wins otherwise)',
                'only plain `function _draw()`-style definitions count as game-loop definitions; `function _draw.x()`, '
                '`local function _draw()` and `_draw = function` forms are not generated',
@@ -39,16 +40,27 @@ LEVEL_NOTE = 'Trusted: vlib/luagen.py, vlib/reflex.py, vlib/reffmt.py (.p8 reade
 TECHNIQUE = 'Hypothesis-generated package graphs; model-based token-sequence oracle on the built cart'
 
 GAME_LOOP = [b'_init', b'_update', b'_update60', b'_draw']
-LOOKALIKE = [([b'_drawx'], None), ([b't', b'_draw'], None), ([b'my_update'], None), ([b'obj', b'_init'], b'_update')]
+LOOKALIKE = [([b'_drawx'], None), ([b't', b'_draw'], None), ([b'my_update'], None), ([b'obj', b'_init'], b'_update'),
+             # members of a table that happens to be called like a game-loop function: `function _draw.helper()` defines
+             # the field `helper`, `function _init:m()` the method `m` - not _draw / _init
+             ([b'_draw', b'helper'], None), ([b'_init'], b'm'), ([b'_update60', b'x', b'y'], None), ([b'_update', b'_update'], None)]
 PREAMBLE = b'package={loaded={},_c={}}'
 
 
-def _str_exp(name, ch):
+def _str_lit(name, ch):
     q = ch.pick([b'"', b'"', b"'"])
-    return ('exp', [('string', q + name + q)])
+    return q + name.replace(b'\\', b'\\\\').replace(q, b'\\' + q) + q
+
+
+def _str_exp(name, ch):
+    return ('exp', [('string', _str_lit(name, ch))])
 
 
 def require_chain(name, ch, use_game_loop):
+    if not use_game_loop and ch.chance(40):
+        # Lua's call-with-one-string-literal syntax: require "name" / require [[name]] is require("name")
+        lit = b'[[' + name + b']]' if (ch.chance(80) and b']' not in name and b'\\' not in name) else _str_lit(name, ch)
+        return ('chain', ('name', b'require'), [('call', ('stringarg', lit))])
     args = [_str_exp(name, ch)]
     if use_game_loop:
         args.append(('exp', [('table', [('named', b'use_game_loop', ('exp', [('true',)]))])]))
@@ -144,7 +156,7 @@ def expected_tokens(f, strip):
     if strip:
         top = [s for s in f.stmts if s[4] == 0]
         for i, (sid, s, a, b, depth, parent) in enumerate(top):
-            if s[0] == 'function' and s[1][0] in GAME_LOOP:
+            if s[0] == 'function' and len(s[1]) == 1 and s[2] is None and s[1][0] in GAME_LOOP:
                 drop.update(range(a, b + 1))
                 starts.add(a)
                 if i != len(top) - 1:
@@ -207,7 +219,8 @@ def build_case(seed, avoid=()):
     ch = Choices(seed)
     npk = ch.weighted([(20, 0), (70, 1), (80, 2), (70, 3), (40, 4), (20, 6)])
     names = []
-    pool = [b'util', b'lib/vec', b'a', b'b2', b'sub/deep/x', b'math-lib', b'ui.widgets', b'sub/y', b'core', b'z_9']
+    pool = [b'util', b'lib/vec', b'a', b'b2', b'sub/deep/x', b'math-lib', b'ui.widgets', b'sub/y', b'core', b'z_9',
+            b'a\\b', b'say"hi"']      # (a backslash / a quote in the name: legal file names, escaped in the literal)
     for i in range(npk):
         nm = pool[(ch.below(len(pool)) + i) % len(pool)]
         while nm in names:
@@ -559,8 +572,6 @@ ERRORS = [
     ('option_not_table', b'require("ok", true)\n'),
     ('missing_in_package', b'require("needs_missing")\n'),
     # call forms without parentheses: not "a string literal plus the one supported option" in an argument list
-    ('string_call', b'require "ok"\n'),
-    ('long_string_call', b'x=require [[ok]]\n'),
     ('table_call', b'require{"ok"}\n'),
 ]
 
